@@ -9,6 +9,7 @@ package main
 import (
 	"context"
 	"fmt"
+	"os"
 	"sort"
 	"time"
 
@@ -163,6 +164,7 @@ func (e *Env) appDeliver(msg sdk.Msg, signer string) string {
 	} else {
 		e.rec.comment("signer u%d has no account yet (never funded)", idx)
 	}
+	e.forgedProbe(msg, idx)
 	txBytes, err := e.signTx(msg, e.privs[idx], accNum, seq)
 	if err != nil {
 		e.rec.comment("cannot build tx: %v", err)
@@ -182,6 +184,48 @@ func (e *Env) appDeliver(msg sdk.Msg, signer string) string {
 		return "res err"
 	}
 	return "res ok"
+}
+
+// forgedProbe: "an authorised signer" (C18), "only by the account that placed it" (C11), "only the
+// auctioneer" (C12) at the level of the transaction: the SAME message in a tx that is signed only
+// by ANOTHER account (one that exists, with its own account number and sequence) must not pass
+// the application's CheckTx — the account the handler authorises (the message's signer field) must
+// be the account whose signature the SDK demands (the cosmos.msg.v1.signer option compiled into the
+// message descriptor).  Nothing is delivered; the outcome is printed as an `X` line.
+func (e *Env) forgedProbe(msg sdk.Msg, signerIdx int) {
+	for d := 1; d < len(e.users); d++ {
+		j := (signerIdx + d) % len(e.users)
+		if os.Getenv("HARNESS_FORGE_SELF") == "1" {
+			j = signerIdx // self-test of the machinery: the "forged" tx is signed by the right key and must be reported as accepted
+		}
+		acc := e.app.AccountKeeper.GetAccount(e.appCtx(), e.users[j])
+		if acc == nil {
+			continue
+		}
+		txBytes, err := e.signTx(msg, e.privs[j], acc.GetAccountNumber(), acc.GetSequence())
+		if err != nil {
+			e.rec.comment("forged probe: cannot build tx: %v", err)
+			return
+		}
+		func() {
+			defer func() {
+				if r := recover(); r != nil {
+					e.rec.extra = append(e.rec.extra, fmt.Sprintf("X forged-panic u%d", j))
+				}
+			}()
+			resp, err := e.app.CheckTx(&abci.RequestCheckTx{Tx: txBytes, Type: abci.CheckTxType_New})
+			switch {
+			case err != nil:
+				e.rec.extra = append(e.rec.extra, fmt.Sprintf("X forged-rejected u%d", j))
+			case resp.Code == 0:
+				e.rec.extra = append(e.rec.extra, fmt.Sprintf("X forged-accepted u%d", j))
+			default:
+				e.rec.extra = append(e.rec.extra, fmt.Sprintf("X forged-rejected u%d", j))
+				e.rec.comment("forged probe rejected: code %d (%s)", resp.Code, resp.Codespace)
+			}
+		}()
+		return
+	}
 }
 
 // appRoute executes a message that cannot be signed through the app's msg service router.
